@@ -17,10 +17,11 @@ LEVEL_TEXT = ('every point of the product is executed on the real script and cla
               'trailing slashes, symlinked parents, mount points, every candidate trash dir failing)')
 LEVEL_NOTE = ('trusted: CPython/shutil, tmpfs, shim mount rules (EXDEV/EBUSY/ismount); names other than the alphabet and '
               'permission failures of non-root users are not covered')
-RULE = ('product of kind (6) x spelling (24) x option set (14, incl. three combinations) x layout (9: home trash whose info is a regular file / a dangling symlink, first use, existing pair whose payload is a dangling symlink, existing pair with the same name, orphan directory payload + orphan info with the same name, sticky .Trash, plain volume, every candidate blocked) minus duplicates (kind is irrelevant for '
+RULE = ('product of kind (6) x spelling (24; plus 4 unusual entry names for the plain spelling) x option set (14, incl. three combinations) x layout (9: home trash whose info is a regular file / a dangling symlink, first use, existing pair whose payload is a dangling symlink, existing pair with the same name, orphan directory payload + orphan info with the same name, sticky .Trash, plain volume, every candidate blocked) minus duplicates (kind is irrelevant for '
         'spellings that do not name x); non-trivial = the run went past argument screening (a trash-dir candidate was '
         'examined or the entry moved), distinct = outcome class x spelling x option x layout')
 
+NAMES_X = ['n.trashinfo', ' s p ', '-dash', 'nl\nx']
 SPELL_X = ['x', '/abs/x', './x', 'd/../x', 'x/', 'x//', './/x', 'sd/../x', 'sdv/../x', 'ld/x', 'ldv/x', 'ld/../w/x']
 SPELL_DOT = ['.', '..', './', '../', 'd/.', 'd/..', 'd/./', 'd/../', 'sd/..', '/mnt/v2', '/mnt/v2/', '', 'nonexistent',
              'd']
@@ -50,16 +51,20 @@ def cases(tier):
                     out.append({'kind': k, 'sp': sp, 'opt': o, 'lay': lay})
             for sp in SPELL_DOT:
                 out.append({'kind': 'file', 'sp': sp, 'opt': o, 'lay': lay})
+            if o in ('-', '-f', 'td-same', 'hf-both'):
+                for nm in NAMES_X:
+                    for k in ('file', 'tree', 'ldang'):
+                        out.append({'kind': k, 'sp': './x', 'opt': o, 'lay': lay, 'name': nm})
     return out
 
 
-def make_world(kind, lay):
+def make_world(kind, lay, name='x'):
     on_vol = lay.startswith('vol')
     B = '/mnt/v1/w' if on_vol else '/home/u/w'
     P = B.rsplit('/', 1)[0]
     W = scen.base_world(mounts=['/', '/mnt/v1', '/mnt/v2'], cwd=B)
     W.dir(B)
-    scen.add_entry(W, B + '/x', kind)
+    scen.add_entry(W, B + '/' + name, kind)
     W.dir(B + '/d').file(B + '/d/inner', 'inner of d\n')
     scen.add_entry(W, P + '/x', kind, tag=' (parent copy)')
     W.dir(P + '/other').file(P + '/other/o', 'o\n')
@@ -112,9 +117,11 @@ def make_world(kind, lay):
 
 
 def run_case(c):
-    W, B, P = make_world(c['kind'], c['lay'])
+    W, B, P = make_world(c['kind'], c['lay'], c.get('name', 'x'))
     sp = c['sp']
     arg = sp.replace('/abs/x', B + '/x')
+    if c.get('name'):
+        arg = './' + c['name']
     argv = ['trash-put']
     stdin = None
     env = dict(W.env)
